@@ -317,7 +317,10 @@ def create_for_folder_subcommand(
                 os.path.dirname(existing_history.asc_mhl_path), os.path.dirname(ref.path)
             )
             if not os.path.exists(referenced_asc_folder):
-                missing_asc_mhl_folder.add(os.path.dirname(referenced_asc_folder))
+                nested_root = os.path.dirname(referenced_asc_folder)
+                # a nested history that the ignore patterns exclude is not missing
+                if not ignore_spec.get_path_spec().match_file(os.path.relpath(nested_root, root_path)):
+                    missing_asc_mhl_folder.add(nested_root)
 
     if detect_renaming:
         found_file_paths = set()
